@@ -71,7 +71,9 @@ def place_demo(src_dir, repo):
         shutil.copy(t, dst)
         names = re.findall(r"^func (Test\w+|Example\w*)\(", txt, re.M)
         pat = "^(%s)$" % "|".join(names) if names else "."
-        return "go test -vet=off -count=1 -run '%s' %s 2>&1 | tail -30" % (pat, "./" + d if d != "." else "."), [dst], "go test -run '%s' in %s" % (pat, d)
+        readme = open(os.path.join(src_dir, "README.md"), errors="replace").read() if os.path.isfile(os.path.join(src_dir, "README.md")) else ""
+        race = "-race " if re.search(r"go test[^\n]*-race", readme) else ""  # a demonstration of a data race needs the detector
+        return "go test %s-vet=off -count=1 -run '%s' %s 2>&1 | tail -30" % (race, pat, "./" + d if d != "." else "."), [dst], "go test %s-run '%s' in %s" % (race, pat, d)
     m = os.path.join(src_dir, "demo", "main.go")
     if os.path.isfile(m):
         dd = os.path.join(repo, "zz_seeded_demo")
@@ -246,7 +248,7 @@ def table():
             m = json.load(open(mp))
             own = m["checks"].get(m["property"], {}).get("verdict", "?")
             others = sorted(k for k, v in (m.get("cross") or {}).items() if v == "caught" and k != m["property"])
-            hist = m.get("history", "")
+            hist = m.get("history", "") or m.get("note", "")
             out.append("| %s | %s | %s | %s%s | %s |" % (sid, m["property"], one_line(sid).replace("|", "/"), own, (" (" + hist + ")") if hist else "", ", ".join(others)))
     with open(os.path.join(SEEDED, "INDEX.md"), "w") as f:
         f.write("\n".join(out) + "\n")
